@@ -306,7 +306,32 @@ def _reserve_after_return(node):
     return False
 
 
+def _sqlite_chooser_reserves_nothing(node):
+    """Canary: the sqlite chooser returns its selection without marking it reserved."""
+    import ast
+    for n in ast.walk(node):
+        if isinstance(n, ast.If) and ast.unparse(n.test) == 'set_reserved':
+            n.test = ast.Constant(False)
+            return True
+    return False
+
+
+def _resave_drops_reservation(node):
+    """Canary: saving a transaction again rewrites its output rows (and with them the reservation flag)."""
+    import ast
+    hit = False
+    for n in ast.walk(node):
+        if isinstance(n, ast.keyword) and n.arg == 'ignore_duplicate':
+            n.arg = 'replace'
+            hit = True
+    return hit
+
+
 CANARIES = [
+    dict(name='sqlite-chooser-reserves-nothing', target='lbry.wallet.database:get_and_reserve_spendable_utxos', mutate=_sqlite_chooser_reserves_nothing,
+         job=dict(family='sql', fn='spend_sql_job', args=(2, ('sqlite',)), loop_bound=2000, max_depth=80)),
+    dict(name='resave-drops-reservation', target='lbry.wallet.database:Database._transaction_io', mutate=_resave_drops_reservation,
+         job=dict(family='sql', fn='spend_sql_job', args=(2, ('sqlite',)), loop_bound=2000, max_depth=80)),
     dict(name='no-reservation-lock', target='lbry.wallet.ledger:Ledger.get_spendable_utxos', mutate=_no_lock,
          job=dict(family='select', fn='select_only', args=(2, 2, None), loop_bound=300, max_depth=60)),
     dict(name='selection-not-reserved', target='lbry.wallet.ledger:Ledger.get_spendable_utxos', mutate=_reserve_after_return,
